@@ -7,6 +7,7 @@
 //! (internal) sim worker|exec-stdin|shrink-stdin ...
 
 mod bytes;
+mod c04;
 mod c06;
 mod c12;
 mod cmdsim;
@@ -28,6 +29,7 @@ use driver::{Dyn, DynEngine};
 
 fn engine_for(prop: &str) -> Option<Box<dyn DynEngine>> {
     Some(match prop {
+        "C04" => Box::new(Dyn(c04::AccessSim)),
         "C06" => Box::new(Dyn(c06::EnvSim)),
         "C10" => Box::new(Dyn(procsim::ProcSim)),
         "C11" => Box::new(Dyn(cmdsim::CmdSim)),
@@ -43,7 +45,7 @@ fn engine_for(prop: &str) -> Option<Box<dyn DynEngine>> {
     })
 }
 
-pub const ALL_PROPS: &[&str] = &["C06", "C10", "C11", "C12", "C13", "C14", "C15", "C16", "C18", "C19"];
+pub const ALL_PROPS: &[&str] = &["C04", "C06", "C10", "C11", "C12", "C13", "C14", "C15", "C16", "C18", "C19"];
 
 fn arg_val(args: &[String], name: &str) -> Option<String> {
     args.iter().position(|a| a == name).and_then(|i| args.get(i + 1).cloned())
